@@ -51,8 +51,9 @@ def handleFP (args : List String) : String :=
   | ["catch", fs, ns, ms, acc, combo, fruits, droplets, tiny, tinyMisses, misses] =>
     match floats fs, natList ns, bits ms with
     | [stars, ar], [nfr, ndr, ntd], [hd, flm, nf] =>
-      let a : CatchAttrs Float := { stars := stars, ar := ar, nFruits := nfr, nDroplets := ndr }
-      let d : CatchSettings := { mods := { hd := hd, fl := flm, nf := nf }, nTinyDroplets := ntd }
+      let a : CatchFullAttrs Float :=
+        { base := { stars := stars, ar := ar, nFruits := nfr, nDroplets := ndr }, nTinyDroplets := ntd }
+      let d : CatchSettings := { mods := { hd := hd, fl := flm, nf := nf } }
       let b : CatchB Float :=
         { acc := optFloat acc, combo := optNat combo, fruits := optNat fruits, droplets := optNat droplets,
           tiny := optNat tiny, tinyMisses := optNat tinyMisses, misses := optNat misses }
